@@ -38,11 +38,12 @@ type c12Lane struct {
 
 type c12Scen struct {
 	CapS  int       `json:"cap_s"` // configured message_expiry in seconds, 0 = off
+	Redis bool      `json:"redis,omitempty"` // session queues on the redis backend (harness RESP server)
 	Lanes []c12Lane `json:"lanes"`
 }
 
 func genC12(t *rapid.T) c12Scen {
-	s := c12Scen{CapS: rapid.SampledFrom([]int{0, 1, 2, 3600}).Draw(t, "cap")}
+	s := c12Scen{CapS: rapid.SampledFrom([]int{0, 1, 2, 3600}).Draw(t, "cap"), Redis: rapid.IntRange(0, 2).Draw(t, "backend") == 0}
 	n := rapid.IntRange(6, 10).Draw(t, "nlanes")
 	for i := 0; i < n; i++ {
 		l := c12Lane{Pub: rapid.SampledFrom([]string{"v5", "v5", "v3", "api"}).Draw(t, "pub"), SubV: rapid.SampledFrom([]int{4, 5, 5}).Draw(t, "subv"),
@@ -68,6 +69,7 @@ type laneOut struct {
 	labels       []string
 	nontrivial   bool
 	log          []string
+	excluded     []string // open known findings whose recorded wrong outcome was observed (and accepted) in this lane
 }
 
 func runLanes(n int, f func(i int) laneOut) []laneOut {
@@ -92,6 +94,9 @@ func collectLanes(outs []laneOut, c *ev.Case) *ev.Violation {
 		}
 		for _, l := range o.log {
 			c.Logf("lane %d: %s", i, l)
+		}
+		for _, f := range o.excluded {
+			c.Excluded(f)
 		}
 		if o.inconclusive {
 			c.Count("timing_inconclusive", 1)
@@ -125,6 +130,15 @@ func runC12(s c12Scen, c *ev.Case) *ev.Violation {
 		drops[string(msg.Payload)] = dropRec{err, time.Now()}
 		mu.Unlock()
 	}}
+	if s.Redis {
+		rs, cleanup, e := fixture.StartRedis()
+		if e != nil {
+			return harnessErr("miniredis: %v", e)
+		}
+		defer cleanup()
+		cfg = fixture.WithRedis(cfg, rs.Addr())
+		c.Label("backend_redis")
+	}
 	b, err := fixture.Start(fixture.Opts{Config: cfg, Hooks: hooks})
 	if err != nil {
 		return harnessErr("start broker: %v", err)
@@ -312,6 +326,14 @@ func runC12(s c12Scen, c *ev.Case) *ev.Violation {
 				}
 			case wHi < lifetime-timingMargin:
 				o.labels = append(o.labels, "must_deliver")
+				if got == nil && s.Redis && ev.KF("F-redis-expiry-whole-seconds") && wHi > lifetime-time.Second &&
+					(dr.err == queue.ErrDropExpired || dr.err == queue.ErrDropExpiredInflight) {
+					// open finding: the redis element format stores the expiry time in whole seconds (truncated), so a
+					// message can be dropped as expired up to one second early - and only then
+					o.excluded = append(o.excluded, "F-redis-expiry-whole-seconds")
+					o.labels = append(o.labels, "redis_dropped_up_to_1s_early")
+					break
+				}
 				if got == nil {
 					return fail(ev.Violf("C12.dropped-before-expiry", "message with lifetime %vs (expiry %d, cap %d) was dropped (%v) after waiting at most %v", L, l.E, s.CapS, dr.err, wHi))
 				}
